@@ -50,13 +50,29 @@ def _grow(rows):
     return glist([glist([glist(_cp(v), gz) for v in r]) for r in rows])
 
 
+def _source_specials():
+    """characters the CURRENT source treats specially (separator, escape patterns / replacements)"""
+    try:
+        import re
+        from harness import core
+        from translators import t_merge
+        txt = t_merge.translate(core.REPO)["Gen_merge.v"]
+        return sorted({chr(int(x)) for x in re.findall(r"\d+", txt.split("Definition steps")[1])})
+    except Exception:
+        return [",", "\\"]
+
+
 def cases(tier, seed):
     out = []
+    extra = [c for c in _source_specials() if c not in (",", "\\")]
+    global ALPHA
+    if extra:      # adapt the adversarial alphabet to what the source now uses as separator / escape
+        ALPHA = ALPHA + [e for c in extra for e in (c, "a" + c, c + "a", "\\" + c, c + c)]
     # exhaustive 2-column stream (one table), sampled / exhaustive 3-column stream
     t2 = [list(p) for p in itertools.product(ALPHA, repeat=2)]
     out.append({"kind": "merge", "rows": t2})
     t3 = [list(p) for p in itertools.product(ALPHA, repeat=3)]
-    if tier == "quick":
+    if tier == "quick" or extra:
         t3 = Rng(seed, PID, "t3").sample(t3, 400)
     for k in range(0, len(t3), 432):
         out.append({"kind": "merge", "rows": t3[k:k + 432]})
@@ -124,7 +140,14 @@ def impl(case):
                                         if cont == "DataFrame" else [list(r) for r in rows])
     # relabelled single-column twin: tuple -> 'g<k>' in order of first appearance (independent of the merge)
     tkeys = [tuple(r) for r in rows]
-    twin = np.array([f"g{k}" for k in _ids(tkeys)])
+    # twin names keep the sort order of the implementation's own merged strings (so both runs sum and
+    # iterate groups in the same order: bitwise-equal results, no tie-breaking noise) but stay distinct
+    # for distinct tuples whatever the merge does
+    dist = sorted(set(tkeys))
+    mstr = [str(s) for s in _merge_columns(np.array([list(t) for t in dist], dtype=object))]
+    order = sorted(range(len(dist)), key=lambda i: (mstr[i], dist[i]))
+    t2g = {dist[i]: f"g{rank:03d}" for rank, i in enumerate(order)}
+    twin = np.array([t2g[t] for t in tkeys])
     res = {}
     if kind == "validate":
         if case["as_control"]:
@@ -183,7 +206,6 @@ def impl(case):
         q = [(t, s) for t in sorted(set(tkeys)) for s in (-1.0, 0.0, 1.5, 2.0, 3.0, 5.0)]
         qX = pd.DataFrame({"s": [s for _, s in q], "c": 0})
         qsf = np.array([list(t) for t, _ in q], dtype=object)
-        t2g = {t: f"g{k}" for t, k in zip(tkeys, _ids(tkeys))}
         qtw = np.array([t2g[t] for t, _ in q])
         if cont == "DataFrame":
             qsf = pd.DataFrame(qsf, columns=[f"f{j}" for j in range(qsf.shape[1])])
